@@ -561,6 +561,58 @@ theorem invalid_log_level_is_badoption (l₁ l₂ : List OptInst) (c : Config) (
   simp only [spec] at hbad ⊢
   simp [hbad]
 
+/-! ## effect where the option acts: system transport argv, platform variants -/
+
+/-- The override option decides the whole command line: with `WithSystemTransportOpenArgsOverride`
+the spawned argv is exactly the given list (plus the NETCONF subsystem request), whatever port,
+user, key or extra arguments are configured. -/
+theorem argv_override (host : Bytes) (c : Config) (h : c .transport_System_OpenArgs ≠ []) :
+    argvOfConfig host c = c .transport_System_OpenArgs ++
+      (if c .transport_SSHArgs_NetconfConnection == [tokTrue] then [b!"-s", b!"netconf"] else []) := by
+  unfold argvOfConfig SshCfg.systemArgv
+  simp only [h, ne_eq, not_false_eq_true, if_true]
+  split <;> simp
+
+/-- Without an override the command line starts `host -p <port>` and ends with the accumulated
+extra arguments (`WithSystemTransportOpenArgs` / platform `transport-system-open-args`, in
+order), followed only by `-s netconf` for a NETCONF driver. -/
+theorem argv_carries_port_and_extra_args (host : Bytes) (c : Config)
+    (h : c .transport_System_OpenArgs = []) :
+    ∃ mid, argvOfConfig host c =
+      [host, b!"-p", SshCfg.fmtInt (valInt (c .transport_Args_Port))] ++ mid ++
+        c .transport_System_ExtraArgs ++
+        (if c .transport_SSHArgs_NetconfConnection == [tokTrue] then [b!"-s", b!"netconf"] else []) := by
+  unfold argvOfConfig SshCfg.systemArgv SshCfg.buildOpenArgs
+  simp only [h, ne_eq, not_true_eq_false, if_false]
+  refine ⟨[b!"-o", b!"ConnectTimeout=" ++ SshCfg.fmtInt (SshCfg.timeoutSeconds (valInt (c .transport_Args_TimeoutSocket))),
+      b!"-o", b!"ServerAliveInterval=" ++ SshCfg.fmtInt (SshCfg.timeoutSeconds (valInt (c .transport_Args_TimeoutSocket))),
+      b!"-o", b!"EscapeChar=none"]
+    ++ (if valStr (c .transport_Args_User) ≠ [] then [b!"-l", valStr (c .transport_Args_User)] else [])
+    ++ (if (c .transport_SSHArgs_StrictKey == [tokTrue]) = true then
+          [b!"-o", b!"StrictHostKeyChecking=yes"]
+          ++ (if valStr (c .transport_SSHArgs_KnownHostsFile) ≠ [] then
+                [b!"-o", b!"UserKnownHostsFile=" ++ valStr (c .transport_SSHArgs_KnownHostsFile)] else [])
+        else [b!"-o", b!"StrictHostKeyChecking=no", b!"-o", b!"UserKnownHostsFile=/dev/null"])
+    ++ (if valStr (c .transport_SSHArgs_ConfigFile) ≠ [] then [b!"-F", valStr (c .transport_SSHArgs_ConfigFile)]
+        else [b!"-F", b!"/dev/null"])
+    ++ (if valStr (c .transport_SSHArgs_PrivateKeyPath) ≠ [] then [b!"-i", valStr (c .transport_SSHArgs_PrivateKeyPath)]
+        else []), ?_⟩
+  split <;> simp [List.append_assoc]
+
+/-- `NewPlatformVariant`: the variant replaces what it sets, everything else — in particular the
+whole `options:` block — stays the default's. -/
+theorem variant_merge (p v : PlatformDef) :
+    (mergeVariant p v).options = p.options ∧
+    (v.failedWhenContains ≠ [] → (mergeVariant p v).failedWhenContains = v.failedWhenContains) ∧
+    (v.failedWhenContains = [] → (mergeVariant p v).failedWhenContains = p.failedWhenContains) ∧
+    (v.privilegeLevels ≠ [] → (mergeVariant p v).privilegeLevels = v.privilegeLevels) ∧
+    (v.privilegeLevels = [] → (mergeVariant p v).privilegeLevels = p.privilegeLevels) ∧
+    (v.defaultDesiredPriv ≠ [] → (mergeVariant p v).defaultDesiredPriv = v.defaultDesiredPriv) ∧
+    (v.defaultDesiredPriv = [] → (mergeVariant p v).defaultDesiredPriv = p.defaultDesiredPriv) ∧
+    (∀ t, v.onOpen = some t → (mergeVariant p v).onOpen = some t) ∧
+    (v.onOpen = none → (mergeVariant p v).onOpen = p.onOpen) := by
+  refine ⟨rfl, ?_, ?_, ?_, ?_, ?_, ?_, ?_, ?_⟩ <;> intro h <;> simp_all [mergeVariant]
+
 /-! ## `platform_option_names_total` -/
 open Scrapli.Gen.PlatformOptions in
 /-- Every option name the platform package recognises builds an option function that exists,
